@@ -555,4 +555,134 @@ instance (validRef : Bytes → Bool) (specs : List RefSpec) (items : List Item) 
     Decidable (AgreesOn validRef specs items) :=
   decidable_of_iff _ (agreesOn_iff validRef specs items).symm
 
+
+/-- what one glob spec contributes for one item (git's verdict and expansion) -/
+def globHit (k v : Bytes) (it : Item) : Option (Option Bytes) :=
+  match Spec.C32.matchNameWithPattern k it.name (some v) with
+  | .matched r => some r
+  | _ => none
+
+/-- the mappings a single glob spec `k:v` (spec index `si`) yields for the enumerated items -/
+def globMaps (k v : Bytes) (si : Nat) : List (Nat × Item) → List Mapping
+  | [] => []
+  | (ii, it) :: rest =>
+    match globHit k v it with
+    | some r => ⟨some ii, .name it.name, r, si⟩ :: globMaps k v si rest
+    | none => globMaps k v si rest
+
+theorem pushUnique_fresh (out : List Mapping) (m : Mapping) (h : ∀ x ∈ out, x.lhs ≠ m.lhs) :
+    pushUnique out m = out ++ [m] := by
+  have : out.any (sameKey m) = false := by
+    rw [List.any_eq_false]
+    intro x hx
+    have := h x hx
+    simp only [sameKey, Bool.and_eq_true, beq_iff_eq, not_and]
+    intro e; exact absurd e.symm this
+  simp [pushUnique, this]
+
+theorem globMaps_lhs (k v : Bytes) (si : Nat) (items : List (Nat × Item)) :
+    ∀ x ∈ globMaps k v si items, ∃ p ∈ items, x.lhs = .name p.2.name := by
+  induction items with
+  | nil => intro x hx; simp [globMaps] at hx
+  | cons p rest ih =>
+    obtain ⟨ii, it⟩ := p
+    intro x hx
+    simp only [globMaps] at hx
+    split at hx
+    · simp only [List.mem_cons] at hx
+      cases hx with
+      | inl e => exact ⟨(ii, it), by simp, by rw [e]⟩
+      | inr e => obtain ⟨q, hq, hl⟩ := ih x e; exact ⟨q, List.mem_cons_of_mem _ hq, hl⟩
+    · obtain ⟨q, hq, hl⟩ := ih x hx; exact ⟨q, List.mem_cons_of_mem _ hq, hl⟩
+
+/-- the inner loop of phase 2 for a glob spec: with pairwise distinct item names (none of them already a
+source in `out`) every hit is appended -/
+theorem phase2Items_glob (k v : Bytes) (kp vp : Nat) (hk : findStar k = some kp) (hv : findStar v = some vp) (si : Nat) :
+    ∀ (items : List (Nat × Item)) (out : List Mapping),
+      (items.map (·.2.name)).Nodup → (∀ x ∈ out, ∀ p ∈ items, x.lhs ≠ .name p.2.name) →
+      phase2Items ⟨some (needleOf k), some (needleOf v)⟩ si items out = some (out ++ globMaps k v si items) := by
+  intro items
+  induction items with
+  | nil => intro out _ _; simp [phase2Items, globMaps]
+  | cons p rest ih =>
+    obtain ⟨ii, it⟩ := p
+    intro out hnd hfresh
+    simp only [List.map_cons, List.nodup_cons] at hnd
+    simp only [phase2Items, glob_matchesLhs k v kp vp hk hv it, globMaps, globHit]
+    have hrest : ∀ x ∈ out, ∀ p ∈ rest, x.lhs ≠ .name p.2.name :=
+      fun x hx p hp => hfresh x hx p (List.mem_cons_of_mem _ hp)
+    cases hm : Spec.C32.matchNameWithPattern k it.name (some v) with
+    | die => simp only [Bool.false_eq_true, if_false]; exact ih out hnd.2 hrest
+    | noMatch => simp only [Bool.false_eq_true, if_false]; exact ih out hnd.2 hrest
+    | matched r =>
+      simp only [if_true]
+      have hfr : ∀ x ∈ out, x.lhs ≠ (Mapping.mk (some ii) (.name it.name) r si).lhs :=
+        fun x hx => hfresh x hx (ii, it) (by simp)
+      rw [pushUnique_fresh out _ hfr]
+      have := ih (out ++ [⟨some ii, .name it.name, r, si⟩]) hnd.2 (by
+        intro x hx p hp
+        simp only [List.mem_append, List.mem_singleton] at hx
+        cases hx with
+        | inl h => exact hrest x h p hp
+        | inr h =>
+          subst h
+          simp only [ne_eq, Source.name.injEq]
+          intro e
+          exact hnd.1 (by rw [e]; exact List.mem_map_of_mem (f := fun q : Nat × Item => q.2.name) hp))
+      rw [this]; simp
+
+
+
+def pairOf (m : Mapping) : Spec.C32.Src × Option Bytes := (srcOfModel m.lhs, m.rhs)
+def gitPairOf (g : Spec.C32.Map) : Spec.C32.Src × Option Bytes := (g.src, g.dst)
+
+theorem enumFrom_names {n : Nat} (items : List Item) :
+    (enumFrom n items).map (·.2.name) = items.map (·.name) := by
+  induction items generalizing n with
+  | nil => rfl
+  | cons a rest ih => simp [enumFrom, ih]
+
+theorem matchRemotes_single_glob (mode : Mode) (k v : Bytes) (kp vp : Nat) (hk : findStar k = some kp)
+    (hv : findStar v = some vp) (hm : mode ≠ .negative) (items : List Item)
+    (hd : (items.map (·.name)).Nodup) :
+    matchRemotes [⟨mode, some k, some v⟩] items = some (globMaps k v 0 (enumFrom 0 items)) := by
+  have hneg : (mode == Mode.negative) = false := by
+    cases mode <;> first | rfl | exact absurd rfl hm
+  have hp2 := phase2Items_glob k v kp vp hk hv 0 (enumFrom 0 items) []
+    (by rw [enumFrom_names]; exact hd) (by intro x hx; simp at hx)
+  rw [needleOf_glob hk] at hp2
+  simp only [matchRemotes, enumFrom, phase1, matcherOf, Option.map_some, needleOf_glob hk, List.zip_cons_cons,
+    List.zip_nil_right, phase2, hneg, Bool.false_eq_true, if_false, List.any_cons,
+    List.any_nil, Bool.or_false, Bool.false_and]
+  rw [hp2]
+  simp
+
+/-- git's `get_expanded_map` for the same spec gives the same (source, destination) pairs, in the same order -/
+theorem expandedMap_eq_globMaps (k v : Bytes) (kp vp : Nat) (hk : findStar k = some kp) (hv : findStar v = some vp)
+    (neg force pat sha : Bool) (si : Nat) :
+    ∀ (items : List Item) (n : Nat), (∀ it ∈ items, it.name.contains 94 = false) →
+      ∃ gm, Spec.C32.getExpandedMap (items.map (·.name)) ⟨neg, force, pat, sha, k, some v⟩ = .ok gm ∧
+        gm.map gitPairOf = (globMaps k v si (enumFrom n items)).map pairOf := by
+  intro items
+  induction items with
+  | nil => intro n _; exact ⟨[], rfl, rfl⟩
+  | cons it rest ih =>
+    intro n hc
+    have hc0 : it.name.contains 94 = false := hc it (by simp)
+    obtain ⟨gm, hg, he⟩ := ih (n + 1) (fun x hx => hc x (List.mem_cons_of_mem _ hx))
+    have hpat := git_pattern k it.name (some v) kp hk
+    simp only [List.map_cons, Spec.C32.getExpandedMap, hc0, Bool.false_eq_true, if_false, enumFrom, globMaps, globHit]
+    cases hmm : Spec.C32.matchNameWithPattern k it.name (some v) with
+    | die =>
+      exfalso
+      rw [hpat] at hmm
+      split at hmm
+      · simp [hv] at hmm
+      · simp at hmm
+    | noMatch => exact ⟨gm, by simp only [hg], he⟩
+    | matched r =>
+      refine ⟨⟨.ref it.name, r, force⟩ :: gm, by simp only [hg], ?_⟩
+      simp [gitPairOf, pairOf, srcOfModel, he]
+
+
 end GixModel.C32
